@@ -216,6 +216,21 @@ class Effects:
                 tgts = [n.target]
             elif isinstance(n, ast.NamedExpr):
                 tgts = [n.target]
+            # `x += y` on a local that aliases a list / array / set / dict held elsewhere extends that object in place
+            if isinstance(n, ast.AugAssign) and isinstance(n.target, ast.Name) and isinstance(n.op, (ast.Add, ast.BitOr, ast.Mult, ast.Sub, ast.BitAnd)) and n.target.id != selfn:
+                tt = self.res.type_of(ast.copy_location(ast.Name(id=n.target.id, ctx=ast.Load()), n.target), f)
+                mutable = any(m_[0] in ("list", "set", "dict") or (m_[0] == "inst" and m_[1] in ("numpy.ndarray",)) or (m_[0] == "ext" and "ndarray" in str(m_[1])) for m_ in members(tt)) if tt is not None else False
+                if mutable:
+                    if n.target.id in params:
+                        e = ("PARAMMUT", n.target.id)
+                        eff.add(e)
+                        self.why.setdefault((f.qualname, e), (n.lineno, None))
+                    else:
+                        src = self._alias_source(f, n.target.id)
+                        if src is not None:
+                            e = ("WRITE", f"alias:{src}+=")
+                            eff.add(e)
+                            self.why.setdefault((f.qualname, e), (n.lineno, None))
             flat = []
             for t in tgts:
                 flat.extend(self._flatten(t))
@@ -370,8 +385,10 @@ class Effects:
                     vals = [n.iter]
             for v in vals:
                 core = v
-                while isinstance(core, ast.Subscript):
-                    core = core.value
+                from_loop = not isinstance(n, ast.Assign)
+                while isinstance(core, ast.Subscript) or (from_loop and isinstance(core, ast.Call) and isinstance(core.func, ast.Name) and core.func.id in ("enumerate", "reversed", "zip", "iter") and core.args):
+                    # the elements a loop draws from enumerate(X) / reversed(X) / zip(X, ..) are X's own elements
+                    core = core.value if isinstance(core, ast.Subscript) else core.args[0]
                 if isinstance(core, ast.Attribute):
                     return norm(core)
                 if isinstance(core, ast.Name) and core.id != name:
